@@ -281,6 +281,8 @@ def run_property(pid, tier, seed, only_units=None, quiet=False):
             'trusted_base': sorted(trusted) + meta.get('trusted', []),
             'explanation': meta['explanation'],
             'samples': samples[:12],
+            'obligations_in_proved_units': sum(r.obligations for r in results if r.unit.mode in ('inductive', 'loopfree')),
+            'obligations_in_bounded_units': sum(r.obligations for r in results if r.unit.mode not in ('inductive', 'loopfree')),
             'units_proved_unbounded': proved_units,
             'units_bounded_standin': bounded_units,
             'units': udesc,
